@@ -42,13 +42,14 @@ class Suite:
         self.res.obs_equal = 0
         self.tag_counts = {}
 
-    def check(self, sc, meta=None, nontrivial=None, judge_extra=None, probe=None, compare=True):
+    def check(self, sc, meta=None, nontrivial=None, judge_extra=None, probe=None, compare=True, refine=None):
         res = self.res
         impl = dsl.run_impl(sc, self.kind)
         res.evaluations += 1
         case = {'scenario': sc, 'kind': self.kind}
         if meta:
             case['meta'] = meta
+        model = None
         if compare:
             model = dsl.parse_reply(self.drv.ask(dsl.model_line(sc, self.kind)))
             res.model_compared += 1
@@ -78,6 +79,8 @@ class Suite:
             if v != 'ok':
                 for msg in v[len('fail: '):].split(' ;; '):
                     key = {'clause': clause_of(msg)}
+                    if refine:
+                        key.update(refine(msg, impl, model) or {})
                     if probe:
                         key['probe'] = probe
                     res.violation(key, msg, case)
